@@ -62,6 +62,7 @@ type Config struct {
 	LifetimeTTL   time.Duration `json:"lifetime_ttl"`
 	GraceTTL      time.Duration `json:"grace_ttl"`
 	TokenTTL      time.Duration `json:"token_ttl"`
+	TokenChars    string        `json:"token_chars,omitempty"`
 	AuthLifetime  time.Duration `json:"auth_lifetime"`
 	GroupCacheTTL time.Duration `json:"group_cache_ttl"`
 	RefreshTTL    time.Duration `json:"refresh_ttl"`
@@ -222,6 +223,7 @@ func New(cfg Config, dir string) *World {
 	logrus.SetOutput(io.Discard)
 	w := &World{Cfg: cfg, Net: simnet.New(), Log: &Log{start: time.Now()}, Browsers: map[string]*Browser{}, dir: dir, ServerErr: &bytes.Buffer{}, Stats: &StatSink{}}
 	w.IdP = NewIdP(w.Log, IdPClientID, IdPClientSecret, cfg.TokenTTL)
+	w.IdP.TokenChars = cfg.TokenChars
 	w.Up = NewUpstreams(w.Log)
 	var err error
 	if w.ProxyCipher, err = aead.NewMiscreantCipher(cfg.ProxyCookieSecret()); err != nil {
